@@ -10,7 +10,7 @@ trap 'rm -rf "$H"' EXIT
 printf '[user]\n\tname = Baseline\n\temail = baseline@example.com\n' > "$H/.gitconfig"
 mkdir -p "$H/tmp"
 export HOME=$H XDG_CONFIG_HOME=$H/xdg GIT_CONFIG_NOSYSTEM=1 TMPDIR=$H/tmp
-cd /repo && go test -json -vet=off -count=1 -timeout 25m ./... > "${BASELINE_JSON:-/dev/null}" 2>/dev/null
+cd "${REPO_DIR:-/repo}" && go test -json -vet=off -count=1 -timeout 25m ./... > "${BASELINE_JSON:-/dev/null}" 2>/dev/null
 rc=$?
 if [ -n "${BASELINE_JSON:-}" ]; then
   python3 - "$BASELINE_JSON" <<'PY'
